@@ -23,16 +23,21 @@ CBMC_VERSION = None
 
 
 def sh(cmd, timeout=None, cwd=None, mem_gb=12):
-    """run a command, return (rc, stdout+stderr, seconds); rc=-9 on timeout"""
+    """run a command in its own process group, return (rc, stdout+stderr, seconds); rc=-9 on timeout (whole group killed)"""
+    import signal
     t0 = time.time()
     pre = "ulimit -v %d; " % (mem_gb * 1024 * 1024)
+    p = subprocess.Popen(["bash", "-c", pre + cmd], stdout=subprocess.PIPE, stderr=subprocess.STDOUT, cwd=cwd, start_new_session=True)
     try:
-        p = subprocess.run(["bash", "-c", pre + cmd], stdout=subprocess.PIPE,
-                           stderr=subprocess.STDOUT, timeout=timeout, cwd=cwd)
-        return p.returncode, p.stdout.decode("utf-8", "replace"), time.time() - t0
-    except subprocess.TimeoutExpired as e:
-        out = (e.stdout or b"").decode("utf-8", "replace")
-        return -9, out, time.time() - t0
+        out, _ = p.communicate(timeout=timeout)
+        return p.returncode, out.decode("utf-8", "replace"), time.time() - t0
+    except subprocess.TimeoutExpired:
+        try:
+            os.killpg(p.pid, signal.SIGKILL)
+        except OSError:
+            pass
+        out, _ = p.communicate()
+        return -9, (out or b"").decode("utf-8", "replace"), time.time() - t0
 
 
 def q(s):
@@ -229,21 +234,21 @@ def parse_cbmc(out):
     return results, msgs
 
 
-def run_group(g, tier, root_wd, keep=False):
+def run_group_uncached(g, tier, root_wd, keep=False):
     """returns dict(name, status ok|fail|error, obligations, failed[], reach_ok, secs, ...)"""
     t0 = time.time()
     wd = os.path.join(root_wd, g["name"])
     res = dict(name=g["name"], fn=g.get("enforce") or g.get("fn"), form=g.get("form", "dfcc"),
                bounded=g.get("bounded"), status="error", obligations=0, discharged=0,
                failed=[], secs=0.0, solver_s=0.0, detail="", replaced=g.get("replace", []),
-               samples=[], cmd="")
+               samples=[], cmd="", group_def=g)
     try:
         gb = build_group(g, wd, tier)
         cur, ilog = instrument(g, wd, gb)
         # vacuity (b): every contracted loop must have produced invariant obligations
         cmd = cbmc_cmd(g, cur)
         res["cmd"] = cmd
-        to = g.get("timeout", 300) * (3 if tier == "thorough" else 1)
+        to = g.get("timeout", 300) * 4      # generous: a slow machine must not turn a proof into "undecided"
         rc, out, secs = sh(cmd, cwd=wd, timeout=to, mem_gb=g.get("mem_gb", 12))
         res["solver_s"] = round(secs, 2)
         if rc == -9:
@@ -315,3 +320,80 @@ def run_group(g, tier, root_wd, keep=False):
     if not keep and res["status"] == "ok":
         shutil.rmtree(wd, ignore_errors=True)
     return res
+
+
+# ---------------------------------------------------------------------------------------------------------------
+# Several properties share obligation groups (the timer groups serve C07, C08, C10 and C01, ...).  A group result is
+# a function of (the /repo source tree, the /verif machinery, the group definition, the tier): successful results
+# are kept under build/cache keyed by the SHA-256 of exactly these inputs, so concurrently or successively running
+# checks do not repeat the same proof.  Any change to /repo/src or to /verif changes the key: a check always decides
+# the CURRENT working tree.  Undecided results are never cached; a failed group is cached together with its verifier trace.  VERIF_NOCACHE=1 switches this off.
+# Heavy groups (mem_gb >= 20) additionally take one of VERIF_HEAVY (default 3) machine-wide slots.
+_TREE_HASH = None
+
+
+def tree_hash():
+    global _TREE_HASH
+    if _TREE_HASH is None:
+        h = hashlib.sha256()
+        files = []
+        for root in (SRC, os.path.join(VERIF, "contracts"), os.path.join(VERIF, "harness"), os.path.join(VERIF, "lib")):
+            for dp, dn, fn in os.walk(root):
+                dn[:] = [d for d in dn if d != "__pycache__"]
+                files += [os.path.join(dp, f) for f in fn if not f.endswith(".pyc")]
+        for f in sorted(files):
+            h.update(f.encode() + b"\0")
+            with open(f, "rb") as fh:
+                h.update(hashlib.sha256(fh.read()).digest())
+        _TREE_HASH = h.hexdigest()
+    return _TREE_HASH
+
+
+def run_group(g, tier, root_wd, keep=False):
+    import fcntl
+    if os.environ.get("VERIF_NOCACHE"):
+        return run_group_uncached(g, tier, root_wd, keep)
+    cdir = os.path.join(VERIF, "build", "cache")
+    os.makedirs(cdir, exist_ok=True)
+    key = hashlib.sha256((tree_hash() + json.dumps(g, sort_keys=True, default=str) + tier).encode()).hexdigest()[:32]
+    cfile = os.path.join(cdir, key + ".json")
+    with open(os.path.join(cdir, key + ".lock"), "w") as lk:
+        fcntl.flock(lk, fcntl.LOCK_EX)
+        if os.path.exists(cfile):
+            try:
+                res = json.load(open(cfile))
+                res["cached"] = True
+                res["group_def"] = g
+                return res
+            except Exception:
+                pass
+        slot = None
+        if g.get("mem_gb", 12) >= 20:
+            import random
+            nslots = int(os.environ.get("VERIF_HEAVY", "3"))
+            while slot is None:
+                for i in random.sample(range(nslots), nslots):
+                    fh = open(os.path.join(cdir, "heavy.%d" % i), "w")
+                    try:
+                        fcntl.flock(fh, fcntl.LOCK_EX | fcntl.LOCK_NB)
+                        slot = fh
+                        break
+                    except OSError:
+                        fh.close()
+                if slot is None:
+                    time.sleep(2)
+        try:
+            res = run_group_uncached(g, tier, root_wd, keep)
+        finally:
+            if slot is not None:
+                slot.close()
+        if res["status"] == "fail" and res.get("trace_json") and os.path.exists(res["trace_json"]):
+            tcopy = os.path.join(cdir, key + ".trace.json")
+            shutil.copy(res["trace_json"], tcopy)
+            res["trace_json"] = tcopy
+        if res["status"] in ("ok", "fail"):
+            tmp = cfile + ".%d" % os.getpid()
+            with open(tmp, "w") as fh:
+                json.dump({k: v for k, v in res.items() if k != "group_def"}, fh)
+            os.replace(tmp, cfile)
+        return res
